@@ -288,7 +288,15 @@ impl<'a, 'c, 'cc> Visitor for AggVis<'a, 'c, 'cc> {
         let ap = ad.agg_param(&apspec)?;
         let (pb, ib) = match ad.shard(vdaf, &c.0, meas, &n16, &rand.0, false) {
             Ok(x) => x,
-            Err(_) => return Err("honest shard failed".into()),
+            Err(e) => {
+                // generated instances and measurements are in the domain: "valid arguments are accepted and work"
+                let why = match e {
+                    crate::inst::ShardErr::Refused(e) => e,
+                    crate::inst::ShardErr::Panic(v) => v.detail,
+                };
+                ctx.fail(Violation::new("C16.valid_refused", format!("shard|{}", inst.class), format!("shard refused an in-domain measurement of {:?}: {why}", inst)));
+                return Ok(());
+            }
         };
         let public = V::PublicShare::get_decoded_with_param(vdaf, &pb).map_err(|e| e.to_string())?;
         let shares: Vec<V::InputShare> = (0..n).map(|j| V::InputShare::get_decoded_with_param(&(vdaf, j), &ib[j])).collect::<Result<_, _>>().map_err(|e| e.to_string())?;
@@ -340,7 +348,10 @@ impl<'a, 'c, 'cc> Visitor for AggVis<'a, 'c, 'cc> {
                 for j in 0..n {
                     match guard("verify_init", || vdaf.verify_init(&key, &c.0, j, &ap, &n16, &public, &shares[j])) {
                         Ok(Ok((_, sh))) => vs.push(sh),
-                        Ok(Err(e)) => return Err(format!("honest verify_init failed: {e}")),
+                        Ok(Err(e)) => {
+                            ctx.fail(Violation::new("C16.valid_refused", format!("verify_init|{}", inst.class), format!("verify_init refused aggregator {j}'s honest share of {:?}: {e}", inst)));
+                            return Ok(());
+                        }
                         Err(v) => {
                             ctx.fail(v);
                             return Ok(());
@@ -410,7 +421,13 @@ impl<'a, 'c, 'cc> Visitor for AggVis<'a, 'c, 'cc> {
                 let mut states: Vec<V::VerifyState> = Vec::new();
                 let mut vshares: Vec<V::VerifierShare> = Vec::new();
                 for j in 0..n {
-                    let (st, sh) = lib!("verify_init", vdaf.verify_init(&key, &c.0, j, &ap, &n16, &public, &shares[j])).map_err(|e| format!("honest verify_init failed: {e}"))?;
+                    let (st, sh) = match lib!("verify_init", vdaf.verify_init(&key, &c.0, j, &ap, &n16, &public, &shares[j])) {
+                        Ok(x) => x,
+                        Err(e) => {
+                            ctx.fail(Violation::new("C16.valid_refused", format!("verify_init|{}", inst.class), format!("verify_init refused aggregator {j}'s honest share of {:?}: {e}", inst)));
+                            return Ok(());
+                        }
+                    };
                     states.push(st);
                     vshares.push(sh);
                 }
@@ -420,7 +437,10 @@ impl<'a, 'c, 'cc> Visitor for AggVis<'a, 'c, 'cc> {
                     for j in 0..n {
                         match lib!("verify_init", vdaf.verify_init(&key, &c.0, j, &ap, &n2, p2, &s2[j])) {
                             Ok((_, sh)) => vs2.push(sh),
-                            Err(e) => return Err(format!("honest verify_init (second report) failed: {e}")),
+                            Err(e) => {
+                                ctx.fail(Violation::new("C16.valid_refused", format!("verify_init|{}", inst.class), format!("verify_init refused aggregator {j}'s honest share (second report) of {:?}: {e}", inst)));
+                                return Ok(());
+                            }
                         }
                     }
                     other_msg = lib!("verifier_shares_to_message", vdaf.verifier_shares_to_message(&c.0, &ap, vs2)).ok();
